@@ -240,6 +240,14 @@ def run(ctx):
     from . import trace_setup
 
     trace_setup.run(ctx, "C14")
+    if ctx.tier == "thorough":
+        # extra assurance on the specification itself, not relied upon: MetaTruthful as an inductive invariant of the
+        # integer core of Setup.tla (SetupMeta.tla), i.e. for behaviours of any length, discharged by Apalache
+        base = core.run_apalache("SetupMeta", ctx.scratch, ["--cinit=CInit", "--init=Init", "--inv=IndInv", "--length=0"])
+        step = core.run_apalache("SetupMeta", ctx.scratch, ["--cinit=CInit", "--init=IndInit", "--inv=IndInv", "--length=1"])
+        ctx.extra["apalache_inductive_MetaTruthful"] = {"base_case": base, "inductive_step": step}
+        if not (base and step):
+            raise core.MachineryFailure("Apalache refutes the inductive invariant of SetupMeta.tla: the specification is wrong")
     ctx.exhaustive = True
     ctx.extra["exhaustive_note"] = "exhaustive up to MaxLen per configuration; *_sim6 configurations and recorded traces are sampled"
 
